@@ -254,6 +254,13 @@ func runRouter(e *Env) {
 				if c.Think && e.Choose("wl.think", 3) == 0 {
 					s.SleepFor(time.Duration(1+e.Choose("wl.thinkamt", 40)) * time.Millisecond)
 				}
+				if e.Choose("wl.sendnil", 25) == 0 {
+					// an application error: rejected, and without consequences for anybody else
+					if err := r.rt.Send(nil); err == nil {
+						e.Violate("C14", "nil-message-accepted", "Send(nil) reported success")
+					}
+					e.Fault("send-nil")
+				}
 				r.doSend(false)
 			}
 			r.sendersLeft--
